@@ -2,7 +2,9 @@
  * through the public API (addrxlat_sys_new / addrxlat_map_set /
  * addrxlat_sys_set_map / addrxlat_sys_set_meth, callbacks via
  * addrxlat_ctx_add_cb) and runs addrxlat_op / addrxlat_fulladdr_conv on it.
- * sys.c is #included only so that the read-capabilities callback can count
+ * the get-page callback answers with 256-byte regions in the
+ * byte order of the page and may serve an address space by re-entering
+ * addrxlat_fulladdr_conv; sys.c is #included only so that the read-capabilities callback can count
  * the records on ctx->inflight (struct inflight is private to sys.c): that
  * count is the nesting depth of addrxlat_op at the moment of a read.
  * Case format: see ml/eng_sysop.ml. */
@@ -10,16 +12,18 @@
 #include "src/addrxlat/sys.c"
 
 #define PAGE 4096ULL
+#define REGION 256ULL		/* the get-page callback answers with 256-byte regions */
 #define MAXPAGES 256
 
-struct page { int as; uint64_t base; unsigned char *data; };
+struct page { int as; uint64_t base; unsigned char *data; int big; };
 static struct page pages[MAXPAGES];
 static unsigned npages;
 static unsigned char zeropage[PAGE];
 static long long failst;
+static int backing[64];			/* -1: the callback serves the space itself */
+static addrxlat_sys_t *cur_sys;
 static unsigned long rcaps;
 static addrxlat_ctx_t *ctx;
-static unsigned maxdepth;
 static unsigned ncalls;
 static addrxlat_fulladdr_t lastcall;
 static long long opret;
@@ -35,24 +39,12 @@ static struct page *find_page(int as, uint64_t base, int create)
 	pages[npages].as = as;
 	pages[npages].base = base;
 	pages[npages].data = calloc(1, PAGE);
+	pages[npages].big = 0;
 	return &pages[npages++];
 }
 
-static addrxlat_status get_page(const addrxlat_cb_t *cb, addrxlat_buffer_t *buf)
-{
-	uint64_t base = buf->addr.addr & ~(PAGE - 1);
-	struct page *pg = find_page(buf->addr.as, base, 0);
-	if (!pg && failst)
-		return addrxlat_ctx_err(ctx, (addrxlat_status)failst, "no page at %d:%llx",
-					(int)buf->addr.as, (unsigned long long)base);
-	buf->addr.addr = base;
-	buf->ptr = pg ? pg->data : zeropage;
-	buf->size = PAGE;
-	buf->byte_order = ADDRXLAT_HOST_ENDIAN;
-	return ADDRXLAT_OK;
-}
-
-static unsigned long read_caps(const addrxlat_cb_t *cb)
+static unsigned maxdepth;
+static void note_depth(void)
 {
 	unsigned d = 0;
 	struct inflight *pif;
@@ -60,6 +52,44 @@ static unsigned long read_caps(const addrxlat_cb_t *cb)
 		++d;
 	if (d > maxdepth)
 		maxdepth = d;
+}
+
+static addrxlat_status get_page(const addrxlat_cb_t *cb, addrxlat_buffer_t *buf)
+{
+	int as = buf->addr.as;
+	uint64_t want = buf->addr.addr, at = want, shift = 0;
+	struct page *pg;
+	uint64_t base;
+
+	note_depth();
+	if (as >= 0 && as < 64 && backing[as] >= 0) {
+		/* serve this space through another one: convert the requested address
+		 * with the library (same context, same system), as a dump reader that
+		 * can read only one space does; nothing is stored in the buffer before
+		 * the answer is known */
+		addrxlat_fulladdr_t fa = buf->addr;
+		addrxlat_status st = addrxlat_fulladdr_conv(&fa, backing[as], ctx, cur_sys);
+		if (st != ADDRXLAT_OK)
+			return st;
+		as = backing[as];
+		at = fa.addr;
+	}
+	base = at & ~(REGION - 1);
+	shift = at - base;
+	pg = find_page(as, at & ~(PAGE - 1), 0);
+	if (!pg && failst)
+		return addrxlat_ctx_err(ctx, (addrxlat_status)failst, "no page at %d:%llx",
+					as, (unsigned long long)base);
+	buf->addr.addr = want - shift;
+	buf->ptr = pg ? pg->data + (base & (PAGE - 1)) : zeropage;
+	buf->size = REGION;
+	buf->byte_order = pg && pg->big ? ADDRXLAT_BIG_ENDIAN : ADDRXLAT_LITTLE_ENDIAN;
+	return ADDRXLAT_OK;
+}
+
+static unsigned long read_caps(const addrxlat_cb_t *cb)
+{
+	note_depth();
 	return rcaps;
 }
 
@@ -131,6 +161,19 @@ static void set_meth(addrxlat_sys_t *sys, unsigned slot, char *spec)
 		m.param.pgt.root.addr = hx(fld[3]);
 		m.param.pgt.pf.pte_format = !strcmp(fld[4], "64") ? ADDRXLAT_PTE_PFN64 : ADDRXLAT_PTE_PFN32;
 		m.param.pgt.pte_mask = hx(fld[5]);
+		k = strcmp(fl, "-") ? split(fl, ".") : 0;
+		m.param.pgt.pf.nfields = k;
+		for (i = 0; i < k && i < ADDRXLAT_FIELDS_MAX; ++i)
+			m.param.pgt.pf.fieldsz[i] = (unsigned short)hx(fld[i]);
+		break;
+	}
+	case 'X': {
+		char *fl = fld[6]; int i, k;
+		m.kind = ADDRXLAT_PGT; m.target_as = (int)shx(fld[1]);
+		m.param.pgt.root.as = (int)shx(fld[2]);
+		m.param.pgt.root.addr = hx(fld[3]);
+		m.param.pgt.pte_mask = hx(fld[4]);
+		m.param.pgt.pf.pte_format = (addrxlat_pte_format_t)hx(fld[5]);
 		k = strcmp(fl, "-") ? split(fl, ".") : 0;
 		m.param.pgt.pf.nfields = k;
 		for (i = 0; i < k && i < ADDRXLAT_FIELDS_MAX; ++i)
@@ -211,12 +254,30 @@ int main(int argc, char **argv)
 			set_meth(sys, s, none);
 		}
 		failst = 0; rcaps = 0; opret = 0;
+		for (s = 0; s < 64; ++s) backing[s] = -1;
+		cur_sys = sys;
 		for (p = strtok_r(line, " ", &save); p && ntok < MAXTOK; p = strtok_r(NULL, " ", &save))
 			tok[ntok++] = p;
+		/* pass 0: byte order of pages */
+		for (i = 0; i < ntok; ++i) {
+			char *t = tok[i];
+			if (t[0] == 'E' && t[1] == ':') {
+				struct page *pg;
+				char *c1 = strchr(t + 2, ':');
+				pg = find_page((int)shx(t + 2), hx(c1 + 1) & ~(PAGE - 1), 1);
+				if (pg) pg->big = 1;
+			}
+		}
 		/* pass 1: configuration */
 		for (i = 0; i < ntok; ++i) {
 			char *t = tok[i];
 			switch (t[0]) {
+			case 'B':
+				if (t[1] == ':') {
+					char *c1 = strchr(t + 2, ':');
+					backing[hx(t + 2) & 63] = (int)hx(c1 + 1);
+				}
+				break;
 			case 'C': caps = hx(t + 2); break;
 			case 'R': rcaps = hx(t + 2); break;
 			case 'O': opret = shx(t + 2); break;
@@ -239,7 +300,10 @@ int main(int argc, char **argv)
 				split(t, ":");
 				a = hx(fld[2]); v = hx(fld[3]);
 				pg = find_page((int)shx(fld[1]), a & ~(PAGE - 1), 1);
-				if (pg) memcpy(pg->data + (a & (PAGE - 1) & ~7ULL), &v, 8);
+				if (pg) {
+					if (pg->big) v = __builtin_bswap64(v);
+					memcpy(pg->data + (a & (PAGE - 1) & ~7ULL), &v, 8);
+				}
 				break;
 			}
 			default: break;
